@@ -231,7 +231,7 @@ func canon(v reflect.Value, depth int) string {
 	if !v.IsValid() {
 		return "?"
 	}
-	if depth > 5 {
+	if depth > 14 {
 		return "~"
 	}
 	switch v.Kind() {
@@ -266,7 +266,16 @@ func canon(v reflect.Value, depth int) string {
 		b.WriteString("]")
 		return b.String()
 	case reflect.Map:
-		return "map" + strconv.Itoa(v.Len())
+		if v.Len() > 8 {
+			return "map" + strconv.Itoa(v.Len())
+		}
+		parts := make([]string, 0, v.Len())
+		it := v.MapRange()
+		for it.Next() {
+			parts = append(parts, canon(it.Key(), depth+1)+":"+canon(it.Value(), depth+1))
+		}
+		sort.Strings(parts)
+		return "map{" + strings.Join(parts, ",") + "}"
 	case reflect.String:
 		return strconv.Quote(v.String())
 	case reflect.Int, reflect.Int8, reflect.Int16, reflect.Int32, reflect.Int64:
